@@ -797,3 +797,27 @@ def value_source(ix, defs, n):
                 continue
         return n
     return n
+
+
+def enum_regions(body, lid, enum_prefix):
+    """{variant name | "other": [nodes executed for that variant]} for the two-way dispatch of a function body on the field-less enum
+    local `lid`: a `match lid {..}`, an `if lid == E::V {..} else {..}` or an early-exit `if lid == E::V { ..; return }` + rest"""
+    for n in walk(body):
+        if n.get("k") == "match" and is_local(n["scrut"], lid):
+            d = enum_dispatch(n, lid, enum_prefix)
+            if d:
+                return {k_: list(walk(v)) for k_, v in d.items()}
+    found = {}
+
+    def pred(c):
+        if c.get("k") == "binary" and c["op"] == "==":
+            for a, b in ((c["l"], c["r"]), (c["r"], c["l"])):
+                b = peel(b)
+                if is_local(a, lid) and b.get("k") == "def" and (b.get("path") or "").startswith(enum_prefix):
+                    found["v"] = b["path"][len(enum_prefix):]
+                    return True
+        return False
+    sp = bool_split(body, pred)
+    if sp:
+        return {found["v"]: sp[0], "other": sp[1]}
+    return None
